@@ -158,3 +158,21 @@ def linkEndsB (dir : Dir) (tolStart tol : Rat) (dot : Rat) (steps : List Step) (
   | _ => false
 
 end Labella.Render
+
+namespace Labella.Render
+
+/-- the box a back-end draws for a node: truncated origin, the node's drawn size -/
+def modelBox (o : ROpt) (n : RNode) : Box :=
+  { ox := (boxOrigin o n).1, oy := (boxOrigin o n).2, w := n.w, h := n.h }
+
+/-- `Timeline.get_nodes` + `Item`: drawn size of a label with explicit width `W` (its height is `H`), padding
+`(pl, pr, pt, pb)`; for left/right the label is turned, a text label keeping its text horizontal -/
+def labelSize (dir : Dir) (pl pr pt pb H W : Rat) (hasText : Bool) : Rat × Rat :=
+  if dir.horizontalAxis then (W + pl + pr, H + pt + pb)
+  else if hasText then (W + pt + pb, H + pl + pr)
+  else (H + pt + pb, W + pl + pr)
+
+/-- extent of a node along the axis as handed to the layout engine -/
+def alongAxis (dir : Dir) (size : Rat × Rat) : Rat := if dir.horizontalAxis then size.1 else size.2
+
+end Labella.Render
